@@ -105,6 +105,11 @@ func Targets() []Target {
 		// code with loops: constructors
 		"Union2D", "Array2D", "RotateUnion2D", "RotateCopy2D", "Slice2D",
 		"RevolveTheta3D", "Revolve3D", "TwistExtrude3D", "ScaleTwistExtrude3D", "Union3D", "Array3D", "RotateUnion3D", "RotateCopy3D",
+		// cams.go, flange.go, rack.go, spiral.go (model coq/Sdf/Prim2X.v, equalities coq/Sdf/GenEqX.v)
+		"FlatFlankCamSDF2.Evaluate", "FlatFlankCam2D", "MakeFlatFlankCam",
+		"Flange1.Evaluate", "NewFlange1",
+		"ThreeArcCamSDF2.Evaluate", "ThreeArcCam2D",
+		"GearRackSDF2.Evaluate", "polarDist2",
 	} {
 		ts = append(ts, Target{"sdf", k})
 	}
@@ -3483,7 +3488,7 @@ func Translate(repo string) (*Result, error) {
 		{"v2i", modPath + "vec/v2i", []string{"vec/v2i/v2i.go"}},
 		{"v3i", modPath + "vec/v3i", []string{"vec/v3i/v3i.go"}},
 		{"conv", modPath + "vec/conv", []string{"vec/conv/conv.go"}},
-		{"sdf", modPath + "sdf", []string{"sdf/utils.go", "sdf/sdf2.go", "sdf/sdf3.go", "sdf/box2.go", "sdf/box3.go", "sdf/matrix.go", "sdf/line.go", "sdf/mesh2.go"}},
+		{"sdf", modPath + "sdf", []string{"sdf/utils.go", "sdf/sdf2.go", "sdf/sdf3.go", "sdf/box2.go", "sdf/box3.go", "sdf/matrix.go", "sdf/line.go", "sdf/mesh2.go", "sdf/cams.go", "sdf/flange.go", "sdf/rack.go", "sdf/spiral.go"}},
 	} {
 		p, err := loadPkg(g.fset, repo, s.name, s.path, s.files...)
 		if err != nil {
